@@ -243,6 +243,17 @@ CHECKS["C14"] = {
     ],
 }
 
+CHECKS["C18"] = {
+    "pkg": "c18",
+    "level": "exploration",
+    "technique": "generated server scripts (delays, reordering, stream breaks, stray and repeated answers, unanswered ids, server stop / restart) x generated caller populations (time-outs, cancellations, priorities, forwarding, collapsed ResolveLock, concurrent CloseAddr) against the real RPCClient over loopback gRPC; oracle = round trip of a unique payload per call, exactly-once return, bounded return time",
+    "level_text": "Each generated case runs 1-48 goroutines x 1-6 calls against a scripted loopback server and checks every call's result against its own payload. Real sockets and wall-clock time: the interleavings inside the client are whatever the runtime produces, so a failure is reported with the script and call specs but may not replay deterministically; the thorough tier also runs under the race detector.",
+    "level_note": "Trusted: grpc-go, loopback networking. Exits inconclusive (2) if loopback is unavailable.",
+    "tests": [
+        {"name": "TestBatchMultiplexing", "quick": 250, "thorough": 600, "shards": 8, "timeout_q": 400, "timeout_t": 2400, "race": True},
+    ],
+}
+
 # properties without a registered check, with the reason (kept current by hand)
 NOT_CLAIMED = {}
 
